@@ -50,6 +50,10 @@ type mtx struct {
 	shashes     []common.Uint256 // side-chain tx hashes / return-deposit hashes
 
 	real interfaces.Transaction
+	// blk: the same transaction as a block carries it — another object, decoded from the wire,
+	// whose program parameter (signature bytes, not part of the hash) has a different length, so
+	// hash and fee are equal but the serialized size is not
+	blk interfaces.Transaction
 	hash common.Uint256
 	size int
 	fee  common.Fixed64
@@ -256,6 +260,13 @@ func buildMenu(thorough bool) {
 		m.size = m.real.GetSize()
 		m.fee = common.Fixed64(m.rate * int64(m.size))
 		m.real.SetFee(m.fee) // what the real ContextCheck would record (inputs - outputs)
+		o := m.real
+		m.blk = functions.CreateTransaction(o.Version(), o.TxType(), o.PayloadVersion(), o.Payload(), o.Attributes(), o.Inputs(), o.Outputs(), o.LockTime(),
+			[]*pg.Program{{Code: stdCode(pub(50)), Parameter: bytes.Repeat([]byte{0x40}, 65)}})
+		m.blk.SetFee(m.fee)
+		if m.blk.Hash() != m.hash || m.blk.GetSize() == m.size {
+			evid.Fatalf("menu %s: block copy must have the same hash and a different size", m.name)
+		}
 	}
 	menu = defs
 }
